@@ -117,7 +117,7 @@ type ExploreOpts struct {
 func (m *Machine) Explore(root *ssa.Package, fn *ssa.Function, args []value, job string, o ExploreOpts) *JobResult {
 	res := &JobResult{Job: job, Covers: map[string]int{}, Asserts: map[string]int{}}
 	e := &Explorer{z: newSolver(m.SolverTimeoutMS), job: job, declared: map[string]bool{}, defs: map[string]string{},
-		res: res, funcs: map[string]bool{}, MaxViolPerLabel: o.MaxViolPerLabel, MaxSamples: o.MaxSamples}
+		res: res, funcs: map[string]bool{}, MaxViolPerLabel: o.MaxViolPerLabel, MaxSamples: o.MaxSamples, secondAsked: map[string]int{}}
 	if e.MaxViolPerLabel == 0 {
 		e.MaxViolPerLabel = 2
 	}
